@@ -149,7 +149,7 @@ def gen(rng, tier, info):
     n_msg = {"quick": 6000, "thorough": 60000, "search": 1500}[tier]
     n_prog = {"quick": 6000, "thorough": 60000, "search": 1500}[tier]
     colors = COLORS18 if tier == "thorough" else COLORS10
-    cases = []
+    cases = [{"k": 4}]          # the writing methods the programs use are ALL the line / text writing methods reflection finds
     # (a) messages
     for m in MALFORMED:
         cases.append({"k": 0, "set": None, "added": [], "percall": None, "msgs": [m], "plain": [None], "malformed": True})
@@ -285,7 +285,15 @@ def w_prog(p):
     return out
 
 
+# every public member of an Output / IO class that puts its text on a stream at once (props/C10.py discover(): packages walked,
+# every member CALLED on recording streams).  overwrite / clear are section operations (C15), add_content records only.
+WRITERS = sorted(["write", "write_line", "write_raw", "write_line_raw", "error", "error_line", "error_raw", "error_line_raw",
+                  "overwrite", "clear", "add_content"])
+
+
 def wire(c):
+    if c["k"] == 4:
+        return [9]
     if c["k"] == 0:
         st = c["set"] if c["set"] is not None else default_set()
         return [0, [w_style(s)[0] for s in st], [w_style(s)[0] for s in c["added"]], w_style(c["percall"]), [S(m) for m in c["msgs"]]]
@@ -299,6 +307,8 @@ def wire(c):
 
 
 def describe(c):
+    if c["k"] == 4:
+        return "reflection: the public members of the Output / IO classes that write"
     if c["k"] == 0:
         return "formatters(style set=%r, add_style=%r).format(m, style=%r) for m in %r" % (c["set"] or "default", c["added"], c["percall"], c["msgs"])
     if c["k"] == 3:
@@ -338,6 +348,10 @@ class Boom(Exception):
 def run_impl(c):
     from clikit.api.formatter import StyleSet
     from clikit.formatter import AnsiFormatter, PlainFormatter, NullFormatter
+    if c["k"] == 4:
+        from props import C10
+        found = C10.discover()
+        return [0, sorted(set(e["name"] for e in found["entries"] if e["writer"]))]
     if c["k"] == 0:
         st = c["set"] if c["set"] is not None else default_set()
 
@@ -470,7 +484,15 @@ def io_routes(c, i):
     return not c.get("style") or i == 2
 
 
+def canon_impl(c, o):
+    if c["k"] == 4:
+        return [0, [S(x) for x in o[1]]]
+    return o
+
+
 def canon_model(c, o):
+    if c["k"] == 4:
+        return [0, [S(x) for x in WRITERS]]        # (the model has no entry for this request: the table is the expectation)
     if c["k"] == 0 and o and o[0] == 0:
         # IO.format / Output.format / SectionOutput.format with the per-call style and IO / Output.remove_format are the
         # formatter's own format / remove_format
@@ -534,6 +556,9 @@ def spec_prog(prog, conf):
 
 
 def oracle(c, o):
+    if c["k"] == 4:
+        extra = [x for x in o[1] if x not in WRITERS]
+        return ("writing-method-outside-the-table:" + ",".join(extra)) if extra else None
     if c["k"] == 0:
         if o[0] != 0:
             return None if c.get("malformed") else "formatter-construction-failed"
@@ -659,6 +684,8 @@ def oracle(c, o):
 
 
 def nontrivial_key(c, o):
+    if c["k"] == 4:
+        return None
     if c["k"] == 0:
         if c.get("style"):
             return ("s", c["percall"]["fg"], c["percall"]["bg"], c["percall"]["attrs"]) if (c["percall"]["fg"] or c["percall"]["bg"] or c["percall"]["attrs"]) else None
